@@ -768,13 +768,7 @@ func rulesC02(c *Ctx) {
 				flush++
 				guards := ug.GuardsAt(ug.VertexOf(r))
 				ok := hasAtom(guards, func(a Atom) bool {
-					x, y, op, isCmp := binaryCmp(a.E)
-					if !isCmp || op != token.EQL || !a.Val {
-						return false
-					}
-					ce, isCe := ast.Unparen(x).(*ast.CallExpr)
-					z, isZ := ub.ConstInt(y)
-					return isCe && ub.BuiltinName(ce) == "len" && ub.IsField(ce.Args[0], unres) && isZ && z == 0
+					return atomSaysEmpty(ub, a, func(e ast.Expr) bool { return ub.IsField(e, unres) })
 				})
 				c.Check(ok, "updateBatch:flush-when-empty", ub, r, "the batch reply is released only when no call is unresolved (guards: %s)", atomsString(guards))
 				dels := map[string]bool{}
